@@ -34,6 +34,8 @@ class Validator:
         arr = np.array(rows, dtype=np.int64).reshape(-1, 6)
         if arr.min() < info.min or arr.max() > info.max:
             raise core.MachineryError("corruption does not fit the storage type")
+        if arr.min() < -core.INT_MAX or arr.max() > core.INT_MAX or abs(int(nb)) > core.INT_MAX:
+            raise core.MachineryError("corruption does not fit TLC's native integers")
         shape_ok, dtype_ok = 1, 1
         if wrong == "dtype":
             other = np.int64 if y.dtype != np.int64 else np.int32
